@@ -9,7 +9,7 @@ here=$(cd "$(dirname "$0")/.." && pwd)
 out="$here/seeded/$id-$name"; mkdir -p "$out"
 # <seed-worktree> = "-" re-evaluates an already stored seed (after a check was strengthened)
 if [ "$wt" != "-" ]; then cp "$wt/SEED/patch.diff" "$out/patch.diff"; cp "$wt/SEED/demo.py" "$out/demo.py"; cp "$wt/SEED/meta.json" "$out/meta.seed.json"; fi
-if [ -f "$out/verification.txt" ]; then mv "$out/verification.txt" "$out/verification.first.txt"; fi
+if [ -f "$out/verification.txt" ] && [ ! -f "$out/verification.first.txt" ]; then mv "$out/verification.txt" "$out/verification.first.txt"; fi
 d=$(mktemp -d /tmp/verif-seed.XXXXXX)
 git -C /repo archive HEAD | tar -x -C "$d"
 rec="$out/verification.txt"; : > "$rec"
